@@ -153,6 +153,7 @@ class StochasticSolver(ABC):
         main_start = time.perf_counter()
 
         n_epoch = 0  # In case range short circuits
+        epochs_done = 0
         for n_epoch in range(self._max_iters):
             for iteration in range(self._epoch_iters):
                 # Select subset for stochastic gradient
@@ -216,15 +217,16 @@ class StochasticSolver(ABC):
 
             # Save time
             time_trace[n_epoch + 1] = time.perf_counter() - solver_start
+            epochs_done = n_epoch + 1
 
             if (self._nfails > self._max_fails) or f_est_tol_test:
                 break
         main_time = time.perf_counter() - main_start
 
         info = {
-            "f_est_trace": fest_trace[0 : n_epoch + 1],
-            "step_trace": step_trace[0 : n_epoch + 1],
-            "time_trace": time_trace[0 : n_epoch + 1],
+            "f_est_trace": fest_trace[0 : epochs_done + 1],
+            "step_trace": step_trace[0 : epochs_done + 1],
+            "time_trace": time_trace[0 : epochs_done + 1],
             "n_epoch": n_epoch,
         }
 
